@@ -84,9 +84,16 @@ class SuffixTrie(object):
 
             child = node.children.get(part)
 
-            # Wildcards
+            # Wildcards: a wildcard rule matches the current part even when
+            # the part also starts a longer explicit rule
+            wildcard = node.children.get("*")
+
+            if wildcard is not None and wildcard.leaf:
+                suffix_length = current_length + 1
+                match = wildcard
+
             if child is None:
-                child = node.children.get("*")
+                child = wildcard
 
             # If the current part is not in current node's children, we can stop
             if child is None:
